@@ -2,7 +2,10 @@
 
 package simrt
 
-import "runtime"
+import (
+	"runtime"
+	"unsafe"
+)
 
 // RaceBuild reports whether the binary was built with the race detector.
 const RaceBuild = true
@@ -12,6 +15,15 @@ func raceDisable() { runtime.RaceDisable() }
 
 //go:norace
 func raceEnable() { runtime.RaceEnable() }
+
+//go:norace
+func raceAcquire(p unsafe.Pointer) { runtime.RaceAcquire(p) }
+
+//go:norace
+func raceRelease(p unsafe.Pointer) { runtime.RaceRelease(p) }
+
+//go:norace
+func raceReleaseMerge(p unsafe.Pointer) { runtime.RaceReleaseMerge(p) }
 
 // RaceErrors is the number of data races the detector has reported so far.
 func RaceErrors() int { return runtime.RaceErrors() }
